@@ -199,7 +199,7 @@ func msSetRunning(i int, v bool) { ms.running[i] = v }
 
 //go:norace
 //go:noinline
-func msOverrun() bool { return ms.overrun }
+func msOverrun() bool { return ms.active && ms.overrun }
 
 //go:norace
 //go:noinline
